@@ -179,6 +179,9 @@ def drawdowns(ctx):
                 return z[2][0]
             if z[0] == 'call' and z[1] == ('ext', 'numpy.fromiter') and len(z[2]) >= 1 and all(k in ('count', 'dtype') for k, _ in z[3]):
                 return z[2][0]          # the numbers an iterator yields, collected into an array
+            if z[0] == 'call' and z[1] in (('meth', 'rename'), ('meth', 'copy'), ('meth', 'rename_axis')) and len(z[2]) <= 2 and (len(z[2]) == 1 or z[2][1][0] == 'str') \
+                    and all(k in ('index', 'name', 'deep') and v[0] in ('str', 'const') for k, v in z[3]):
+                return z[2][0]          # a label given to the series, or a copy of it: the same numbers
             return None
         return strip_ndarray(T.replace(strip_ndarray(t), f))
     dd_named = dd
@@ -210,6 +213,11 @@ def drawdowns(ctx):
         okd = is_indicator(ind[0])
     if ind:
         ctx.require(okd, 'C17.S2', 'the under-water indicator is "drawdown != 0" of that same series', fn.site(), fmt(ind[0])[:200], key='C17.S2|indicator')
+    elif any(s_[0] == 'call' and s_[1] == ('ext', 'ISCLOSE') and len(s_[2]) == 2 and s_[2][1] == ZERO and T.teq(numbers_of(s_[2][0]), numbers_of(dd)) for s_ in T.subterms(dur)):
+        tol_ = next(s_ for s_ in T.subterms(dur) if s_[0] == 'call' and s_[1] == ('ext', 'ISCLOSE') and len(s_[2]) == 2 and s_[2][1] == ZERO)
+        ctx.violation('C17.S2', 'the under-water indicator is "drawdown != 0" of that same series', fn.site(),
+                      'READ: the duration is counted over %s: a drawdown within the tolerance of zero (1e-08 by default) is taken for none, so a period spent barely below the '
+                      'high-water mark is left out of the duration' % fmt(tol_)[:100], key='C17.S2|indicator')
     else:
         ctx.undecided('C17.S2', 'the under-water indicator is "drawdown != 0" of that same series', fn.site(), 'no 0/1 indicator of the recognised forms: %s' % fmt(dur)[:120])
     grp = [s for s in T.subterms(dur) if s[0] == 'call' and s[1] == ('ext', 'itertools.groupby')]
